@@ -121,6 +121,13 @@ func cmdCheck(args []string) {
 	tSolve := time.Since(tSolve0).Seconds()
 	decideRegions(v.Regions)
 
+	if os.Getenv("GVC_SLOW") != "" {
+		obs := append([]*Obligation(nil), v.Obls...)
+		sort.Slice(obs, func(i, j int) bool { return obs[i].Ms > obs[j].Ms })
+		for i := 0; i < 8 && i < len(obs); i++ {
+			fmt.Fprintf(os.Stderr, "SLOW %dms %s path=%d solver=%s status=%s\n", obs[i].Ms, obs[i].Name, obs[i].Path, obs[i].Solver, obs[i].Status)
+		}
+	}
 	if d := os.Getenv("GVC_DUMP"); d != "" {
 		// debugging: GVC_DUMP=<obligation-name>:<path> prints that query
 		for _, o := range v.Obls {
@@ -139,6 +146,7 @@ func cmdCheck(args []string) {
 	groups := map[string]*group{}
 	var order []string
 	nObl, nDis, nBounded := 0, 0, 0
+	var coverAny map[string]bool
 	var failed []*Obligation
 	for _, o := range v.Obls {
 		g := groups[o.Name]
@@ -146,6 +154,18 @@ func cmdCheck(args []string) {
 			g = &group{name: o.Name}
 			groups[o.Name] = g
 			order = append(order, o.Name)
+		}
+		if o.Kind == "cover_path" {
+			if coverAny == nil {
+				coverAny = map[string]bool{}
+			}
+			if _, has := coverAny[o.Func]; !has {
+				coverAny[o.Func] = false
+			}
+			if o.Status == "covered" {
+				coverAny[o.Func] = true
+			}
+			continue
 		}
 		if o.Kind == "requires_sat" || o.Kind == "cover" {
 			if o.Status != "covered" {
@@ -184,6 +204,11 @@ func cmdCheck(args []string) {
 		}
 	}
 	sort.Strings(order)
+	for f, ok := range coverAny {
+		if !ok {
+			v.Errors = append(v.Errors, "vacuity: none of the sampled returning paths of "+f+" is satisfiable together with the environment facts")
+		}
+	}
 
 	// ---- known findings ------------------------------------------------------
 	knownPrinted := map[string]bool{}
@@ -222,7 +247,10 @@ func cmdCheck(args []string) {
 	}
 	// replays run in parallel; at most maxReplays per run (the others are
 	// reported without a concrete input)
-	const maxReplays = 4
+	maxReplays := 4
+	if *tier == "thorough" {
+		maxReplays = 64
+	}
 	confirmedBy := make([]bool, len(firsts))
 	paths := make([]string, len(firsts))
 	var rwg sync.WaitGroup
@@ -297,6 +325,9 @@ func cmdCheck(args []string) {
 		}
 		for _, r := range v.Reports {
 			fmt.Fprintf(os.Stderr, "  func %s: paths=%d panics=%d bounded=%d aborted=%q\n", r.Key, r.Paths, r.Panics, r.Bounded, r.Aborted)
+			for _, u := range r.Unexercised {
+				fmt.Fprintf(os.Stderr, "      UNEXERCISED %s\n", u)
+			}
 			for _, n := range r.Notes {
 				fmt.Fprintf(os.Stderr, "      note: %s\n", n)
 			}
@@ -304,6 +335,11 @@ func cmdCheck(args []string) {
 	}
 	fmt.Fprintf(os.Stderr, "%s %s: functions=%d obligations=%d discharged=%d bounded=%d violations=%d known=%d errors=%d wall=%.1fs (load+explore %.1fs, solve %.1fs)\n",
 		*prop, *tier, len(v.Reports), nObl, nDis, nBounded, violations, len(knownLines), len(v.Errors), wall, tExplore, tSolve)
+	if violations > 0 {
+		// a reported violation decides the exit status even when, in addition, some
+		// other obligation could not be evaluated (machinery errors are listed above)
+		os.Exit(1)
+	}
 	if len(v.Errors) > 0 {
 		os.Exit(2)
 	}
